@@ -153,6 +153,18 @@ EXPLANATION += ("  (4) SizeScorer.score is re-translated as a whole method (conf
                 "Scores.size_scorer; trusted: the translator (extended by dict comprehensions over d.items()) and the one primitive p.size = the number of rows of the "
                 "plate (a Plate where a ScreenSubset is expected is its rows in this vocabulary). ")
 
+THEOREMS.update({
+    "C06_select_sound_any_scorer": "gap review G6.1: for a scorer that is NOT a function of the plate (the call at position pos of the combine order is made by scorer pos - RandomScorer, sub-sampling DBAL) and any order containing every chunk index (repeats allowed: one plate then carries several scores): the pipeline does not raise; the returned plate is a candidate, allowed, and the score SOME call stored for it is <= the score ANY call stored for ANY allowed plate; None only if nothing is allowed",
+    "C06_any_scorer_allowed_is_scored": "every allowed plate is handed to the scorer by at least one call of the combine order (the comparison of C06_select_sound_any_scorer is never vacuous)",
+    "C06_pipeline_pos_constant": "for a scorer that is a function of the plate the positional pipeline IS the pipeline of C06_select_sound",
+})
+THEOREMS.update({
+    "C06_model_is_source_conditioning_helpers": "gap review G6.3: primitives `a.combine(b)` -> subset_union, `ScreenSubset.concat(l)` -> subset_concat, `filter_dataset_to_unique_treatments(x)` -> uniq_first []: the translated ScreenSubset.combine / ScreenSubset.concat / filter_dataset_to_unique_treatments (Generated/SrcViews.v, SrcPlates.v), read through the representation sc_rows / sc_subset, give exactly the Scores subsets the configuration C06_SCORE_CHUNK says",
+    "C06_model_is_source_conditioning": "composed as score_chunk composes them: the translated filter_dataset_to_unique_treatments(plate.combine(ScreenSubset.concat(batch plates))) selects uniq_first [] (subset_union plate (subset_concat batch plates)) - the rows the model's rows_for hands to the scorer",
+})
+EXPLANATION += ("  BRIDGE (gap review G6.3, replaces the sentence above saying it is not stated): Proofs/C06SourceBridge.v proves that the translated ScreenSubset.concat / combine / "
+                "filter_dataset_to_unique_treatments, read through sc_rows / sc_subset, are Scores.subset_concat / subset_union / uniq_first [] (C06_model_is_source_conditioning_helpers, _conditioning); "
+                "side conditions screen_wf / view_ok / same parent hold of every constructed screen and of the plates of one screen.  ")
 # ---- gap review G6.1 / G6.2 / G5.5 / G6.4 + seeded C06-m10: what the generators explore in addition ----
 RULE += ("  selcli: select_next_plate.main() on hand-written chunk files holding -inf / +inf / +-1.797e308 / +-5e-324 / scores one ulp apart / ties "
          "(and, in a smaller stream, NaN), with and without KPerSamplePlatePolicy, files shuffled, some empty, one possibly given twice: the plate written is unobserved, not in the batch, "
